@@ -378,16 +378,16 @@ def c17(tier):
     run = P.Run("C17", tier, ["C17_"])
     s = run.seed
     # Spec B with the Rerun action: C17 clauses model-checked, behaviours replayed into the real conductor
-    run.add_mc(F.curated() + F.curated_retry()[:4] + F.random_family(3500 + s, sizes(tier, 15, 150), nmax=4),
+    run.add_mc((F.curated()[:16] if tier == "quick" else F.curated() + F.curated_retry()[:4] + F.random_family(3500 + s, 150, nmax=4)),
                ["C17"], max_rerun=1, max_steps=18, replay=True)
-    defs = F.curated() + F.random_family(2400 + s, sizes(tier, 50, 500), nmax=4, publish=True)
-    env = {"rerun": 1, "rerun_tasks": True, "max_nodes": sizes(tier, 2500, 10000)}
+    defs = F.curated() + F.random_family(2400 + s, sizes(tier, 20, 500), nmax=4, publish=True)
+    env = {"rerun": 1, "rerun_tasks": True, "max_nodes": sizes(tier, 1200, 10000)}
     run.add_jobs(jobs_for(defs, env, s, ("yaql", "jinja")))
     run.add_jobs(jobs_for(F.curated_items() + F.curated_retry() + F.fault_family(("undef",), ("when", "publish", "output")),
-                          dict(env, max_nodes=sizes(tier, 1500, 8000)), s))
+                          dict(env, max_nodes=sizes(tier, 700, 8000), **({"sample": 4} if tier == "quick" else {})), s))
     # rerun requests probed in every state (accepted only when completed and for existing executions)
     run.add_jobs(jobs_for(F.curated() + F.curated_items()[:9] + F.curated_retry()[:4],
-                          {"probe_rerun": True, "pause": 1, "cancel": 1, "max_nodes": sizes(tier, 1200, 6000)}, s))
+                          {"probe_rerun": True, "pause": 1, "cancel": 1, "max_nodes": sizes(tier, 600, 6000)}, s))
     if tier != "quick":
         run.add_jobs(jobs_for(F.curated(), dict(env, rerun=2, cancel=1), s))
     gs, skipped = G.rerun_groups(run.results, sizes(tier, 30, 300), random.Random(s))
